@@ -2,6 +2,7 @@
   TwProofs.C13 — errors name the line of the offending construct.
 -/
 import TwProofs.Lemmas.LexSpan
+import TwModel
 
 namespace Tw.C13
 open Tw Tw.Lx
@@ -31,6 +32,49 @@ theorem identifier_error_line (fuel : Nat) (c : Ctx) (env : Env) (t : Token) (na
 theorem division_by_zero_line (l : Int64) (line : Nat) :
     intInfix (b "/") l 0 line = .err "ErrDivisionByZero" line [] ∧ intInfix (b "%") l 0 line = .err "ErrDivisionByZero" line [] := by
   constructor <;> (unfold intInfix; simp (config := { decide := true }))
+
+/-- a failing render through a Template names the file the template name stands for -/
+theorem render_error_path (w : World) (t : Template) (name : Bytes) (data : List (Bytes × GoVal)) (env : Env) (f : Fail)
+    (hd : envFromMap data = .ok env) (h : tplString w t name data = .fail f) : f.path = templatePath w.cfg name := by
+  unfold tplString envOrFail at h
+  simp only [hd] at h
+  split at h
+  · cases h; rfl
+  · unfold resToOut at h
+    split at h
+    · cases h
+    · cases h; rfl
+    · cases h
+    · cases h
+
+/-- a fault found while loading a file names that file -/
+theorem load_error_path (fs : Fs) (p : Bytes) (base : Nat) (f : Fail) (h : parseFile fs p base = .error f) : f.path = p := by
+  unfold parseFile at h
+  split at h
+  · cases h; rfl
+  · cases h; rfl
+  · split at h
+    · cases h
+    · cases h; rfl
+    · cases h; rfl
+    · cases h; rfl
+
+/-- string evaluation has no file: the path of its errors is empty -/
+theorem string_error_has_no_path (custom : List ((VType × Bytes) × Nat)) (src : Bytes) (data : List (Bytes × GoVal)) (f : Fail)
+    (env : Env) (hd : envFromMap data = .ok env) (h : evaluateStringPure custom src data = .fail f) : f.path = [] := by
+  unfold evaluateStringPure envOrFail at h
+  split at h
+  · cases h; rfl
+  · cases h
+  · cases h
+  · simp only [hd] at h
+    unfold resToOut at h
+    split at h
+    · cases h
+    · cases h; rfl
+    · cases h
+    · cases h
+
 
 example : (match evaluateStringPure [] (b "line1\n{{ \"a\nb\" }}\n{{-- c\n --}}{{ nosuch }}") [] with
     | .fail f => f.line == 5 | _ => false) = true := by decide
